@@ -20,6 +20,11 @@ pub const ROLE_READER: u8 = 2;
 /// value stored in every field of publication k (k = 0 is the record left by an "earlier daemon")
 pub const VBASE: i64 = 1000;
 
+/// C18: "a bounded amount of work". The property fixes no number; the code's present worst case
+/// is 10^6 retries x 9 accesses. The oracle's bound is deliberately an order of magnitude above
+/// that, so that e.g. a retry cap of 10^7 is not reported, while a call that never ends is.
+pub const MAX_ACCESSES_PER_CALL: u64 = 100_000_000;
+
 #[derive(Clone, Debug, PartialEq)]
 pub enum Corrupt {
     None,
@@ -413,7 +418,7 @@ pub fn gen_config(profile: Profile, run_seed: u64, index: u64) -> ACfg {
             cfg.stale_ppm = 0;
             cfg.pct_depth = 0;
             cfg.field_perm = false;
-            cfg.max_steps = 150_000_000;
+            cfg.max_steps = 260_000_000;
             cfg.init = Corrupt::SetValid { gen: gen_biased(&mut r) & !1 | 2 };
             // a whole update (12 steps) or a bit more/less per reader quantum of 3..11 steps
             // the writer's quantum is not a multiple of its 12-step update, so the phase at which the
@@ -431,15 +436,16 @@ pub fn gen_config(profile: Profile, run_seed: u64, index: u64) -> ACfg {
             cfg.stale_ppm = 0;
             cfg.pct_depth = 0;
             cfg.switch_ppm = *r.pick(&[500_000u32, 400_000, 300_000]);
-            cfg.max_steps = 60_000_000;
+            cfg.max_steps = 130_000_000;
             cfg.init = Corrupt::SetValid { gen: gen_biased(&mut r) & !1 | 2 };
             let w = r.range(1, 2) as u32;
             // die right after the odd generation store of the last write
             let at = NEW_POINTS_VALID + (w - 1) * WRITE_POINTS + 2 + r.below(3) as u32;
             cfg.incs.push(IncCfg { writes: w, kill_at: Some(at), io_err: None, corrupt_before: Corrupt::None, gap_ns: 0, write_gap_ns: 0 });
-            for _ in 0..1 {
+            for i in 0..2 {
                 let mut rd = gen_reader(&mut r, 2, false);
-                rd.start_ns = 0;
+                // the second client attaches after the writer's death (odd generation in the file)
+                rd.start_ns = if i == 0 { 0 } else { 20_000 };
                 rd.retry_ns = 20;
                 for c in rd.calls.iter_mut() {
                     c.gap_ns = 0;
@@ -616,6 +622,9 @@ struct ReaderState {
     calls_done: u32,
     distinct_results: u32,
     opened: bool,
+    /// an open (ShmReader::new / client open) is executing; shared accesses it has performed
+    open_active: bool,
+    open_loads: u64,
 }
 
 pub struct AState {
@@ -752,6 +761,7 @@ impl AState {
         let gen_now = if self.stable_file && self.live_gen.is_some() { self.live_gen.unwrap() } else { self.live_header().map(|h| h.generation).unwrap_or(0) };
         // C11: shape of the generation sequence of one complete update
         let g0 = self.w_gen_at_begin.unwrap_or(0);
+        self.out.cover("generation_values_an_update_started_from", g0 as u64);
         let expect_odd = if g0 & 1 == 0 { g0.wrapping_add(1) } else { g0 };
         let mut expect_even = expect_odd.wrapping_add(1);
         if expect_even == 0 {
@@ -815,6 +825,23 @@ impl AState {
         self.attached += 1;
     }
 
+    fn open_begin(&mut self, ri: usize, tid: u32) {
+        let r = &mut self.readers[ri];
+        r.tid = tid;
+        r.open_active = true;
+        r.open_loads = 0;
+    }
+
+    fn open_end(&mut self, ri: usize) {
+        let r = &mut self.readers[ri];
+        r.open_active = false;
+        let n = r.open_loads;
+        self.out.probe("judged.open_calls_bounded");
+        if n > MAX_ACCESSES_PER_CALL {
+            self.out.violate(&["C18"], "unbounded_open", "loads>1e8".into(), format!("opening the segment performed {n} shared accesses"));
+        }
+    }
+
     fn reader_closed(&mut self, _ri: usize) {
         self.attached -= 1;
     }
@@ -846,8 +873,8 @@ impl AState {
         }
         // ---- C18: bounded work ----
         self.out.probe("judged.snapshot_calls");
-        if c.loads > 50_000_000 {
-            self.out.violate(&["C18"], "unbounded_call", "loads>5e7".into(), format!("snapshot() performed {} shared accesses", c.loads));
+        if c.loads > MAX_ACCESSES_PER_CALL {
+            self.out.violate(&["C18"], "unbounded_call", "loads>1e8".into(), format!("snapshot() performed {} shared accesses", c.loads));
         }
         if let Some(g) = c.first_gen {
             let early = g == 0 || g & 1 == 1 || Some(g) == rs.last_gen;
@@ -1039,7 +1066,11 @@ impl Observer for AObserver {
                         s.out.violate(&["C04"], "valid_segment_wiped", "at=wipe".into(), "ShmWriter::new started to wipe a segment that satisfied the documented validity predicate (must be taken over in place)".into());
                     }
                     if ev.tag == "wipe:create" {
-                        s.seg_published = false;
+                        // re-initialising an *unusable* file legitimately passes through generation 0;
+                        // a segment that was valid (and published to) must never see 0 again (C11)
+                        if !s.valid_at_new_entry {
+                            s.seg_published = false;
+                        }
                         s.wiped_this_inc = true;
                         s.out.probe("probe.wipe_of_unusable_file");
                     }
@@ -1109,6 +1140,18 @@ impl Observer for AObserver {
                 s.live_gen = Some(ev.b as u16);
                 if ev.b == 0 && s.seg_published {
                     s.out.violate(&["C11"], "generation_zero", "file_write".into(), "generation 0 written to a segment that had been published to".into());
+                }
+            }
+            EvKind::Load if role == ROLE_WRITER => {
+                for r in s.readers.iter_mut() {
+                    if r.call.active {
+                        r.call.writer_step_during = true;
+                    }
+                }
+            }
+            EvKind::Load if role == ROLE_READER && s.readers.iter().any(|r| r.open_active && r.tid == ev.tid) => {
+                if let Some(r) = s.readers.iter_mut().find(|r| r.open_active && r.tid == ev.tid) {
+                    r.open_loads += 1;
                 }
             }
             EvKind::Load if role == ROLE_READER => {
@@ -1265,6 +1308,7 @@ fn reader_thread(ri: usize, cfg: ReaderCfg, path: PathBuf, st: Arc<Mutex<AState>
     verif_rt::sleep_ns(cfg.start_ns);
     let open = |tries: u32| -> Option<ShmReader> {
         for _ in 0..tries {
+            st.lock().unwrap().open_begin(ri, verif_rt::current_tid());
             if cfg.probe_apis {
                 let a = open_via_client(&path);
                 judge_open(&st, &path, "ClockBoundClient::new_with_path", a);
@@ -1272,6 +1316,7 @@ fn reader_thread(ri: usize, cfg: ReaderCfg, path: PathBuf, st: Arc<Mutex<AState>
                 judge_open(&st, &path, "clockbound_open", b);
             }
             let r = ShmReader::new(&cpath);
+            st.lock().unwrap().open_end(ri);
             let oc = match &r {
                 Ok(_) => (0u8, 0),
                 Err(e) => err_kind(e),
@@ -1571,7 +1616,7 @@ pub fn run(cfg: &ACfg, run_seed: u64, replay: Option<Vec<u32>>, trace: bool, san
         chrony: None,
         rt_off: None,
         procs,
-        watchdog: std::time::Duration::from_secs(if cfg.max_steps > 1_000_000 { 900 } else { 20 }),
+        watchdog: std::time::Duration::from_secs(30),
     });
     let mut s = st.lock().unwrap();
     if s.cached_fd >= 0 {
@@ -1597,10 +1642,15 @@ pub fn run(cfg: &ACfg, run_seed: u64, replay: Option<Vec<u32>>, trace: bool, san
     }
     if report.budget_exhausted {
         let active: Vec<usize> = s.readers.iter().enumerate().filter(|(_, r)| r.call.active).map(|(i, _)| i).collect();
-        let over: Vec<usize> = active.iter().copied().filter(|&i| s.readers[i].call.loads > 50_000_000).collect();
+        let open_over: Vec<usize> = s.readers.iter().enumerate().filter(|(_, r)| r.open_active && r.open_loads > MAX_ACCESSES_PER_CALL).map(|(i, _)| i).collect();
+        if !open_over.is_empty() {
+            out.violate(&["C18"], "open_never_returned", "budget".into(), format!("step budget exhausted while reader(s) {open_over:?} were still opening the segment ({} accesses)", s.readers[open_over[0]].open_loads));
+        }
+        let opening = s.readers.iter().any(|r| r.open_active);
+        let over: Vec<usize> = active.iter().copied().filter(|&i| s.readers[i].call.loads > MAX_ACCESSES_PER_CALL).collect();
         if !over.is_empty() {
             out.violate(&["C18"], "call_never_returned", "budget".into(), format!("step budget exhausted while snapshot() of reader(s) {over:?} was still running ({} accesses)", s.readers[over[0]].call.loads));
-        } else if !active.is_empty() {
+        } else if !active.is_empty() || opening {
             // a retry loop against a dead writer is legal but long: inconclusive at this budget
             out.probe("probe.run_truncated_by_step_budget_in_retry_loop");
         } else {
